@@ -1,6 +1,8 @@
 package sym
 
 import (
+	"go/types"
+
 	"golang.org/x/tools/go/ssa"
 
 	"verif/engine/term"
@@ -47,6 +49,49 @@ func registerEnvStubs() {
 	stubs["time.Now"] = func(x *Exec, f *Closure, a []Value, cc *ssa.CallCommon) Value {
 		return x.zero(f.Fn.Signature.Results().At(0).Type())
 	}
+	// sync/atomic primitives (sequential model: goroutines are run to completion at their spawn point)
+	load := func(x *Exec, f *Closure, a []Value, cc *ssa.CallCommon) Value { return x.load(a[0].(Ptr)) }
+	store := func(x *Exec, f *Closure, a []Value, cc *ssa.CallCommon) Value { x.store(a[0].(Ptr), a[1]); return nil }
+	add := func(x *Exec, f *Closure, a []Value, cc *ssa.CallCommon) Value {
+		v := x.ctx.Add(x.load(a[0].(Ptr)).(*term.Term), a[1].(*term.Term))
+		x.store(a[0].(Ptr), v)
+		return v
+	}
+	for _, n := range []string{"Int32", "Int64", "Uint32", "Uint64", "Uintptr"} {
+		stubs["sync/atomic.Load"+n] = load
+		stubs["sync/atomic.Store"+n] = store
+		stubs["sync/atomic.Add"+n] = add
+	}
+	stubs["(*sync.Once).Do"] = func(x *Exec, f *Closure, a []Value, cc *ssa.CallCommon) Value {
+		c := a[0].(Ptr).C
+		if _, done := x.side[c]; done {
+			return nil
+		}
+		x.side[c] = true
+		x.callValue(a[1], nil, nil)
+		return nil
+	}
+	// context: WithValue keeps the parent's cancellation behaviour (the value itself is not modelled);
+	// WithCancel returns the parent and a cancel function that does nothing: sound where the derived context is only
+	// cancelled when its user is done with it (connection.handle defers the cancel).
+	stubs["context.WithValue"] = func(x *Exec, f *Closure, a []Value, cc *ssa.CallCommon) Value { return a[0] }
+	stubs["context.WithCancel"] = func(x *Exec, f *Closure, a []Value, cc *ssa.CallCommon) Value {
+		return Tuple{a[0], &Closure{Fn: x.eng.nopFunc()}}
+	}
+	stubs["context.Background"] = func(x *Exec, f *Closure, a []Value, cc *ssa.CallCommon) Value {
+		x.unsupported("context.Background in code under test (harnesses bring their own context)")
+		return nil
+	}
+	stubs["time.NewTimer"] = func(x *Exec, f *Closure, a []Value, cc *ssa.CallCommon) Value {
+		tt := f.Fn.Signature.Results().At(0).Type().(*types.Pointer).Elem()
+		cell := x.newCell(tt)
+		ch := &ChanV{Kind: "timer"}
+		x.timerChans = append(x.timerChans, ch)
+		cell.Kids[0].V = ch
+		return Ptr{C: cell}
+	}
+	stubs["(*time.Timer).Stop"] = func(x *Exec, f *Closure, a []Value, cc *ssa.CallCommon) Value { return x.ctx.False() }
+	stubs["(*time.Timer).Reset"] = func(x *Exec, f *Closure, a []Value, cc *ssa.CallCommon) Value { return x.ctx.False() }
 	stubs["time.After"] = func(x *Exec, f *Closure, a []Value, cc *ssa.CallCommon) Value {
 		ch := &ChanV{Kind: "timer"}
 		x.timerChans = append(x.timerChans, ch)
